@@ -1153,29 +1153,37 @@ RCP<const Set> FiniteSet::set_complement(const RCP<const Set> &o) const
         set_set intervals;
         auto &other = down_cast<const Interval &>(*o);
         RCP<const Number> last = other.get_start();
-        RCP<const Number> a_num;
         set_basic rest;
         bool left_open = other.get_left_open(),
              right_open = other.get_right_open();
-        for (auto it = container_.begin(); it != container_.end(); it++) {
-            if (eq(*max({*it, other.get_start()}), *other.get_start())) {
-                if (eq(**it, *other.get_start()))
+        // the container is ordered by hash, the cut points are needed in
+        // increasing order
+        std::vector<RCP<const Number>> nums;
+        for (const auto &a : container_) {
+            if (is_a_Number(*a)) {
+                nums.push_back(rcp_static_cast<const Number>(a));
+            } else {
+                rest.insert(a);
+            }
+        }
+        std::sort(nums.begin(), nums.end(),
+                  [](const RCP<const Number> &a, const RCP<const Number> &b) {
+                      return neq(*a, *b) and eq(*min({a, b}), *a);
+                  });
+        for (const auto &a_num : nums) {
+            if (eq(*max({a_num, other.get_start()}), *other.get_start())) {
+                if (eq(*a_num, *other.get_start()))
                     left_open = true;
                 continue;
             }
-            if (eq(*max({*it, other.get_end()}), **it)) {
-                if (eq(**it, *other.get_end()))
+            if (eq(*max({a_num, other.get_end()}), *a_num)) {
+                if (eq(*a_num, *other.get_end()))
                     right_open = true;
                 break;
             }
-            if (is_a_Number(**it)) {
-                a_num = rcp_static_cast<const Number>(*it);
-                intervals.insert(interval(last, a_num, left_open, true));
-                last = a_num;
-                left_open = true;
-            } else {
-                rest.insert(*it);
-            }
+            intervals.insert(interval(last, a_num, left_open, true));
+            last = a_num;
+            left_open = true;
         }
 
         if (eq(*max({last, other.get_end()}), *other.get_end())) {
